@@ -5,6 +5,13 @@ HERE = os.path.dirname(os.path.dirname(os.path.abspath(__file__)))
 ALL = [f"C{i:02d}" for i in range(1, 19)]
 # property -> (technique, level text, level note, design_ref)
 CHECKS = {
+ "C09": ("runtime invariant monitor: exact-zero / strict-positivity predicates on the float64 autodiff Jacobians of the real layers and of "
+         "the unwrapped masked conditioner after every trainable leaf has been overwritten; mask helpers vs NumPy definitions",
+         "Exploration over an enumerated grid (dim 1-4 x cond x width 1-5 x depth 0-2 x transformer sizes, BNAF block sizes; quick: half "
+         "of it, thorough: all x 4 weight modes x 3 seeds) with weights at init, N(0,25), +-50 corners and all-positive; forbidden "
+         "entries must be exactly 0.0, permitted ones non-zero under the all-positive assignment.",
+         "Trusts jax.jacfwd; the permitted-dependency clause is only evaluated where every path is provably active (all-positive, relu, positive inputs).",
+         "DESIGN.md 4/C09"),
  "C03": ("runtime reference-model monitor over the distribution's own public parts: log_prob vs base.log_prob(inverse image)+inverse "
          "log-det, sample(key) vs transform(base.sample(key)), sample_and_log_prob vs sample and vs log_prob(sample), merge_transforms",
          "Exploration: ~380 distributions (every R->R structure in both orientations over 7 bases, conditional base x (un)conditional "
